@@ -8,7 +8,8 @@ PROPS["C15"] = dict(
     check_module="Mt.Check",
     check_fn="check_case",
     streams=[dict(name="main", quick=320, thorough=8000)],
-    coq_shard=40,
+    coq_shard=20,
+    coq_case_timeout=3600,
     rule="histories of 10-31 (thorough: 10-69) steps = issue-class / mint (new token or more of an existing one) / edit / "
          "transfer (also to self) / burn / hand-over messages by 4 actors (class owners, holders and strangers) and block "
          "boundaries; amounts over the whole uint64 range: small, log-uniform, 2^63, 2^64-1, exactly the room left below "
